@@ -52,6 +52,10 @@ class Ctx:
 
     # program access ------------------------------------------------------
     def prog(self, config='release', loglevel=0, with_tools=False):
+        ov = getattr(self, 'override', None)
+        if ov:
+            loglevel = ov.get('loglevel', loglevel) if loglevel == 0 else loglevel
+            with_tools = ov.get('with_tools', with_tools) or with_tools
         p = progmod.load(config=config, loglevel=loglevel, with_tools=with_tools)
         if self.units is None:
             self.units = list(p.meta['units'])
@@ -119,6 +123,81 @@ def load_known():
 
 LEVELS = {}
 
+ALT_CONFIGS = [('loglevel2', {'loglevel': 2}), ('with-tools', {'with_tools': True})]
+
+
+def thorough(pid, mod, ctx):
+    """thorough tier = quick tier plus (a) the same rule set over the other build configurations of the tree
+    (LOG_LEVEL=2 logging code compiled in; the tools/regression units added), (b) a sensitivity self-test: every
+    stored change that is known to break this property (seeded changes, reverts of the repaired defects) is applied
+    to a scratch copy of the current tree and the check must report it."""
+    import shutil
+    import subprocess
+    import tempfile
+    info = {'configs': {}, 'selftest': {}}
+    for name, ov in ALT_CONFIGS:
+        c2 = Ctx(pid, 'quick')
+        c2.override = ov
+        mod.check(c2)
+        info['configs'][name] = {'obligations': c2.obligations, 'refuted': len(c2.findings)}
+        seen = {(f.rule, f.key) for f in ctx.findings}
+        for f in c2.findings:
+            if (f.rule, f.key) not in seen:
+                f.detail = dict(f.detail or {}, configuration=name)
+                ctx.findings.append(f)
+                ctx.obligations += 1
+        ctx.functions_analysed |= c2.functions_analysed
+    # (b) sensitivity
+    patches = []
+    sd = os.path.join(VERIF, 'seeded')
+    if os.path.isdir(sd):
+        for d in sorted(os.listdir(sd)):
+            if d.startswith(pid + '-') and os.path.exists(os.path.join(sd, d, 'patch.diff')):
+                patches.append(('seeded/' + d, os.path.join(sd, d, 'patch.diff')))
+    rd = os.path.join(VERIF, 'selftest', 'reverts')
+    if os.path.isdir(rd):
+        for d in sorted(os.listdir(rd)):
+            if d.startswith(pid + '-'):
+                patches.append(('reverts/' + d, os.path.join(rd, d)))
+    from facts import repo_root
+    root = repo_root()
+    if os.environ.get('VERIF_SELFTEST') == '0' or os.environ.get('VERIF_REPO'):
+        info['selftest'] = {'skipped': 'nested run'}
+        return info
+    procs = []
+    for name, path in patches:
+        tmp = tempfile.mkdtemp(prefix='verif-selftest-')
+        try:
+            subprocess.run(['rsync', '-a', '--exclude', '_build', '--exclude', '.git', root + '/', tmp + '/'], check=True)
+            dry = subprocess.run(['patch', '-p1', '-s', '--dry-run', '-d', tmp, '-i', path], capture_output=True)
+            if dry.returncode != 0:
+                info['selftest'][name] = 'not applicable to this tree'
+                shutil.rmtree(tmp, ignore_errors=True)
+                continue
+            subprocess.run(['patch', '-p1', '-s', '-d', tmp, '-i', path], check=True, capture_output=True)
+            env = dict(os.environ, VERIF_REPO=tmp, VERIF_EVIDENCE_DIR=os.path.join(tmp, '.ev'), VERIF_REPLAY_DIR=os.path.join(tmp, '.rp'),
+                       VERIF_SELFTEST='0')
+            pr = subprocess.Popen([sys.executable, os.path.join(HERE, 'run.py'), pid, '--tier', 'quick'], env=env,
+                                  stdout=subprocess.PIPE, stderr=subprocess.STDOUT, text=True)
+            procs.append((name, tmp, pr))
+        except Exception:
+            shutil.rmtree(tmp, ignore_errors=True)
+            raise
+    missed = []
+    for name, tmp, pr in procs:
+        try:
+            out, _ = pr.communicate(timeout=900)
+            rc = pr.returncode
+        finally:
+            shutil.rmtree(tmp, ignore_errors=True)
+        rules = sorted({l.split('rule=')[1].split(' ')[0] for l in out.splitlines() if 'refuted: rule=' in l})
+        info['selftest'][name] = {'exit': rc, 'rules': rules[:6]}
+        if rc == 0:
+            missed.append(name)
+    if missed and not ctx.findings:
+        raise AnalysisBroken('sensitivity self-test: the check no longer reports %s' % ', '.join(missed))
+    return info
+
 
 def main():
     ap = argparse.ArgumentParser()
@@ -153,6 +232,15 @@ def main():
         traceback.print_exc()
         print('ANALYSIS-BROKEN property=%s: internal error in checker' % pid)
         return 2
+
+    thorough_info = None
+    if tier == 'thorough':
+        try:
+            thorough_info = thorough(pid, mod, ctx)
+        except AnalysisBroken as e:
+            print('ANALYSIS-BROKEN property=%s: %s' % (pid, e))
+            return 2
+        ctx.info['thorough'] = thorough_info
 
     known, _fixed = load_known()
     new = []
